@@ -36,6 +36,7 @@ Proof.
 Qed.
 
 Section WithOracle.
+  Context {fx : FxEscape}.
   Variable gbk_runes : list N -> Z.
 
   (* ---------------------------------------------------------------- the outer loop *)
